@@ -72,9 +72,9 @@ Proof.
   pose proof (format_partial P fs e He) as FMT. unfold ei_text in FMT.
   assert (Emsg : ei_msg e = std_msg e) by (apply (f_equal t_msg) in ET; exact ET).
   assert (Hhint : hint_of e = Some []).
-  { unfold plain_exc in He. unfold hint_of, std_base_msg. destruct (ex_str e); [|discriminate]. rewrite He. reflexivity. }
+  { unfold plain_exc in He. unfold hint_of. rewrite He. reflexivity. }
   assert (Hshown : str_eqb (ex_shown e) (exc_text (std_type e) (std_msg e)) = true).
-  { unfold plain_exc in He. unfold std_msg, std_base_msg. rewrite Hhint, app_nil_r. destruct (ex_str e); [exact He|discriminate]. }
+  { unfold plain_exc in He. unfold std_msg. rewrite Hhint, app_nil_r. exact He. }
   unfold ei_verdict. cbn [std_tb t_frames t_type t_msg].
   rewrite He, Hhint, Hshown, str_eqb_refl. cbn [is_some andb orb negb].
   rewrite ei_obs_eqb_refl.
